@@ -21,6 +21,7 @@
 //   delkey              maps: remove the last field
 //   reenc               re-encode the head of the site with a longer-than-needed argument (same value)
 //   drop                the message is not delivered
+//   pshift pscale vswap vcopy / ushift uscale uswap     relational: two sites together (c04_rel.go)
 // Long arrays (more than c04MaxKids elements) are sampled at positions 0, 1 and last.
 
 package main
@@ -117,6 +118,29 @@ func c04NormPath(p string) string {
 			j := strings.IndexByte(p[i:], ']')
 			if j > 1 {
 				b.WriteString("[*]")
+				i += j
+				continue
+			}
+		}
+		b.WriteByte(p[i])
+	}
+	return b.String()
+}
+
+// c04StratPath is the path as a sampling stratum: position 0 and the later positions of every array
+// are different strata (`[0]` / `[+]`) — a check that covers only the first component of a vector
+// must meet a tampering of a later one.
+func c04StratPath(p string) string {
+	var b strings.Builder
+	for i := 0; i < len(p); i++ {
+		if p[i] == '[' {
+			j := strings.IndexByte(p[i:], ']')
+			if j > 1 {
+				if p[i+1:i+j] == "0" {
+					b.WriteString("[0]")
+				} else {
+					b.WriteString("[+]")
+				}
 				i += j
 				continue
 			}
